@@ -1,9 +1,11 @@
 #!/bin/bash
 # try_mutant.sh <patch.diff> <prop> [extra check args] : applies the patch to /repo, runs the check, reverts.
+# NOTE: reverts with `git checkout -- .` - never run it with uncommitted edits in /repo.
+V=$(cd "$(dirname "$0")/.." && pwd)
 P=$1; shift
 PROP=$1; shift
 git -C /repo apply $P || { echo "patch does not apply"; exit 3; }
-cd /verif && ./check $PROP --no-evidence "$@" 2>&1 | grep -v "^    " | cut -c1-300 | tail -8
+cd $V && ./check $PROP --no-evidence "$@" 2>&1 | grep -v "^    " | cut -c1-300 | tail -8
 RC=${PIPESTATUS[0]}
 git -C /repo checkout -- .
 echo "check rc=$RC"
